@@ -468,6 +468,84 @@ fn run_concurrent(x: &[u64], trace: bool) -> CaseResult {
     res
 }
 
+// ---------------------------------------------------------------- a daemon browsing its own service
+
+/// With IP_MULTICAST_LOOP (the crate's default) a daemon hears its own announcements and answers:
+/// a service it registered itself is "advertised for the browsed type" like any other.
+fn run_own(x: &[u64], trace: bool) -> CaseResult {
+    // x = [layout 0 v4 / 1 dual, order 0 browse first / 1 register, wait until announced, browse /
+    //      2 register and browse at once, jitter index]
+    let mut res = CaseResult::default();
+    let dual = x[0] == 1;
+    let mut w = World::one(if dual { lay_dual() } else { lay_v4() });
+    w.trace = trace;
+    w.loopback = true;
+    w.ds[0].h.set_ip_check_interval(0).unwrap();
+    w.ds[0].ctl.set_rng_default([0u64, 137, 249][x[2] as usize]);
+    w.poke(0);
+    let ips = if dual { "10.0.0.5,fd00::5" } else { "10.0.0.5" };
+    let reg = |w: &mut World| {
+        w.ds[0].h.register(svc("_t._tcp.local.", "Own", "ownhost.local.", ips, 4242, &[("k", "v")])).unwrap();
+        w.poke(0);
+    };
+    let browse = |w: &mut World| -> usize {
+        let rx = w.ds[0].h.browse("_t._tcp.local.").unwrap();
+        let ch = w.add_browse(0, rx);
+        w.poke(0);
+        ch
+    };
+    let ch = match x[1] {
+        0 => {
+            let ch = browse(&mut w);
+            w.advance(100);
+            reg(&mut w);
+            ch
+        }
+        1 => {
+            reg(&mut w);
+            w.advance(3000);
+            browse(&mut w)
+        }
+        _ => {
+            reg(&mut w);
+            browse(&mut w)
+        }
+    };
+    w.advance(4000);
+    let evs = bevs(&w, 0, ch, 0);
+    let full = "Own._t._tcp.local.";
+    let f = evs.iter().position(|(_, e)| matches!(e, BEv::Found(_, f) if f.eq_ignore_ascii_case(full)));
+    let r = evs.iter().rposition(|(_, e)| matches!(e, BEv::Resolved(r) if r.fullname.eq_ignore_ascii_case(full)));
+    let ctx = || format!("events {:?}", evs.iter().map(|(t, e)| (t - T0, format!("{e:?}"))).collect::<Vec<_>>());
+    res.count("own_service_cases", 1);
+    match (f, r) {
+        (Some(f), Some(r)) if f < r => {
+            if let BEv::Resolved(rs) = &evs[r].1 {
+                let want: Vec<std::net::IpAddr> = ips.split(',').map(|a| a.parse().unwrap()).collect();
+                let got: Vec<std::net::IpAddr> = rs.addrs.iter().map(|a| a.ip).collect();
+                if rs.port != 4242 || !rs.host.eq_ignore_ascii_case("ownhost.local.") || !want.iter().all(|a| got.contains(a)) || !got.iter().all(|a| want.contains(a)) {
+                    res.viols.push(viol("C04|own-service|resolved-with-wrong-content", ctx()));
+                }
+            }
+            // no later than one second after the second announcement (+750 +1000 +jitter) or the browse
+            if evs[r].0 > T0 + 3100 + 2000 {
+                res.viols.push(viol("C04|own-service|resolved-late", ctx()));
+            }
+        }
+        (Some(_), Some(_)) => res.viols.push(viol("C04|own-service|ServiceResolved-before-ServiceFound", ctx())),
+        (None, _) => res.viols.push(viol("C04|own-service|complete-instance-not-reported|no-ServiceFound", ctx())),
+        (_, None) => res.viols.push(viol("C04|own-service|complete-instance-not-reported|no-ServiceResolved", ctx())),
+    }
+    if let Some(f) = daemon_fault(&w, 0) {
+        res.viols.push(viol(format!("C04|daemon-fault|{}", panic_sig(&f)), f));
+    }
+    res.nontrivial = true;
+    res.transitions = w.steps;
+    res.outcome = outcome_hash(&w.log);
+    res.states = final_states(&w);
+    res
+}
+
 pub fn check(tier: &str) -> i32 {
     let mut rep = Report::new("C04", tier, "model_checking");
     let thorough = rep.thorough();
@@ -496,6 +574,17 @@ pub fn check(tier: &str) -> i32 {
     };
     rep.run_part(&pc, Duration::from_secs(120));
     rep.require("concurrent-browses", "channel_instance_pairs");
+
+    let odims = [2u64, 3, 3];
+    let po = FnPart {
+        name: "own-service-through-multicast-loop".into(),
+        rule: "one daemon registers a service and browses its type while hearing its own multicasts (IPv4 / dual-stack) x (browse first / register, wait until announced, browse / both at once) x 3 jitters: its own instance must be found and resolved with its own values".into(),
+        n: product(&odims),
+        describe: Box::new(move |i| format!("{:?}", unrank(i, &odims))),
+        run: Box::new(move |i, tr| run_own(&unrank(i, &odims), tr)),
+    };
+    rep.run_part(&po, Duration::from_secs(60));
+    rep.require("own-service-through-multicast-loop", "own_service_cases");
 
     let perms = permutations4();
     let ldims = [24u64, 4, nshapes];
